@@ -66,6 +66,7 @@ type link struct {
 	expAbs        *int64 // absolute expiration in Unix seconds (for instants a Duration cannot reach)
 	missing       bool   // not in the store
 	undefCid      bool   // referenced by the undefined CID (nothing can be loaded under it)
+	altOf         int    // k+1: referenced by a CID with the digest of proof k and another codec (unknown to the loader); 0: no
 }
 
 type mapLoader map[cid.Cid]*delegation.Token
@@ -205,6 +206,10 @@ func (e *chainEnv) run(tag string, cc chainCase) {
 			prf = append(prf, cid.Undef)
 			continue
 		}
+		if l.altOf > 0 {
+			prf = append(prf, cid.NewCidV1(cid.Raw, fakeCid(l.altOf-1).Hash()))
+			continue
+		}
 		prf = append(prf, ci)
 		if l.missing && !cc.warm {
 			continue
@@ -326,6 +331,7 @@ func passStmts() []pstmt {
 		{kind: "all", sel: ".c", subs: []pstmt{{kind: ">", sel: ".", val: J("4")}}}, {kind: "==", sel: ".zz?", val: J("1")},
 		{kind: "==", sel: ".d.e", val: J("1")}, {kind: "not", subs: []pstmt{{kind: "==", sel: ".a", val: J("6")}}},
 		{kind: "or", subs: []pstmt{{kind: "==", sel: ".a", val: J("1")}, {kind: "==", sel: ".b", val: J(`"abc"`)}}},
+		{kind: "==", sel: ".c", val: J("[5,6,7]")}, {kind: "==", sel: ".d", val: J(`{"e":1}`)},
 	}
 }
 func failStmts() []pstmt {
@@ -334,6 +340,9 @@ func failStmts() []pstmt {
 		{kind: "like", sel: ".b", pat: "b*"}, {kind: "all", sel: ".c", subs: []pstmt{{kind: ">", sel: ".", val: J("5")}}},
 		{kind: "==", sel: ".a", val: J("5.0")}, {kind: "and", subs: []pstmt{{kind: "==", sel: ".a", val: J("5")}, {kind: "==", sel: ".b", val: J(`"x"`)}}},
 		{kind: "any", sel: ".c", subs: []pstmt{{kind: "==", sel: ".", val: J("9")}}}, {kind: "not", subs: []pstmt{{kind: "==", sel: ".a", val: J("5")}}},
+		// equality on lists and maps is equality of the whole value: a prefix, the empty value, a sub-map do not do
+		{kind: "==", sel: ".c", val: J("[5,6]")}, {kind: "==", sel: ".c", val: J("[]")}, {kind: "==", sel: ".d", val: J("{}")},
+		{kind: "==", sel: ".c", val: J("[5,6,7,8]")}, {kind: "==", sel: ".", val: J(`{"a":5}`)}, {kind: "==", sel: ".d", val: J(`{"e":1,"f":2}`)},
 	}
 }
 
@@ -400,6 +409,10 @@ func genChain(c *Ctx) {
 	}
 	// no proofs at all
 	e.run("chain/empty", chainCase{invIss: 1, invSub: 0, invAud: -1, cmd: "/a", args: stdArgs})
+	for _, ia := range [][3]int{{0, 0, -1}, {0, 0, 1}, {0, 0, 0}, {1, 0, 0}, {1, 0, 1}, {2, 2, -1}} {
+		e.run("chain/empty", chainCase{invIss: ia[0], invSub: ia[1], invAud: ia[2], cmd: "/", args: stdArgs})
+		e.run("chain/empty", chainCase{invIss: ia[0], invSub: ia[1], invAud: ia[2], cmd: "/a", args: nil})
+	}
 
 	// ---- 2. structured random: a conforming chain, then 0-3 deviations
 	nrand := 15000
@@ -736,6 +749,21 @@ func genChain(c *Ctx) {
 				ls = mk()
 				e.run("chain/lookalike-invoker", chainCase{invIss: 5, invSub: L, invAud: -1, cmd: "/a", args: stdArgs, links: ls})
 			}
+			// the same digest under another codec: a CID the loader does not know, after the real one and instead of it
+			ls = mk()
+			dup := ls[pos]
+			dup.altOf = pos + 1
+			ins2 := append(append(append([]link{}, ls[:pos+1]...), dup), ls[pos+1:]...)
+			e.run("chain/alt-cid", chainCase{invIss: 0, invSub: L, invAud: -1, cmd: "/a", args: stdArgs, links: ins2})
+			ls = mk()
+			ls[pos].altOf = pos + 1
+			e.run("chain/alt-cid", chainCase{invIss: 0, invSub: L, invAud: -1, cmd: "/a", args: stdArgs, links: ls})
+			// a subject delegating to itself, referenced twice: by its CID, then by the unknown CID with the same digest
+			self := []link{{iss: L, aud: L, sub: L, cmd: "/"}, {iss: L, aud: L, sub: L, cmd: "/", altOf: 1}}
+			e.run("chain/alt-cid", chainCase{invIss: L, invSub: L, invAud: -1, cmd: "/a", args: stdArgs, links: self})
+			// a cycle subject -> B -> subject -> B with the second pair under unknown CIDs of the first pair's digests
+			cyc := []link{{iss: L, aud: 0, sub: L, cmd: "/"}, {iss: 0, aud: L, sub: L, cmd: "/"}, {iss: L, aud: 0, sub: L, cmd: "/", altOf: 1}, {iss: L, aud: L, sub: L, cmd: "/"}}
+			e.run("chain/alt-cid", chainCase{invIss: 0, invSub: L, invAud: -1, cmd: "/a", args: stdArgs, links: cyc})
 			ls = mk()
 			e.run("chain/args-two-options", chainCase{invIss: 0, invSub: L, invAud: -1, cmd: "/a", args: stdArgs, links: ls, argsSplit: true})
 			ls = mk()
